@@ -104,7 +104,7 @@ del Dummy
 
 
 class _State:
-    __slots__ = ('event', 'flag', 'parent', 'run', 'task', 'task_event', 'tick_handler', 'timeout')
+    __slots__ = ('event', 'flag', 'parent', 'run', 'task', 'task_event', 'tick_handler', 'timed_out', 'timeout')
 
     def __init__(self, timeout):
         self.task = None
@@ -112,6 +112,7 @@ class _State:
         self.flag = False
         self.event = None
         self.timeout = timeout
+        self.timed_out = False
         self.parent = None
         self.task_event = None
         self.tick_handler = None
@@ -504,13 +505,17 @@ class Manager:
         state = _State(timeout=kwargs.get('timeout', -1))
 
         def _on_event(self, event, *args, **kwargs):
-            if not state.run and (event_object is None or event is event_object):
+            if not state.run and not state.timed_out and (event_object is None or event is event_object):
                 self.removeHandler(_on_event_handler, event_name)
                 event.alert_done = True
                 state.run = True
                 state.event = event
 
         def _on_done(self, event, *args, **kwargs):
+            if state.timed_out:
+                # stale invocation (handler list computed before the
+                # timeout removed this handler): the caller got TimeoutError
+                return
             if state.event == event.parent:
                 state.flag = True
                 self.registerTask((state.task_event, state.task, state.parent))
@@ -518,7 +523,12 @@ class Manager:
                     self.removeHandler(state.tick_handler, 'generate_events')
 
         def _on_tick(self):
+            if state.flag or state.timed_out:
+                # stale invocation (handler list computed before this
+                # handler was removed): the outcome is already decided
+                return
             if state.timeout == 0:
+                state.timed_out = True
                 self.registerTask(
                     (
                         state.task_event,
